@@ -75,6 +75,7 @@ type FuncVerifier struct {
 	fork     *forkOut
 	ccMode   int
 	sumParamFn map[*ssa.Parameter]*ssa.Function
+	sumDepth   int
 	sumKeep  bool
 }
 
@@ -350,6 +351,18 @@ func (fv *FuncVerifier) summarizeInstr(ins ssa.Instruction, cells map[ssa.Value]
 		c := fv.db.Funcs[callee.String()]
 		if c == nil {
 			if fv.db.purePrefixOf(callee.String()) != "" {
+				return
+			}
+			if fv.sumDepth < 3 && inlinable(fv.fn, callee) {
+				// a small loop-free helper of the repository (the executor runs it in place): what
+				// it can modify is what its own instructions can modify
+				fv.sumDepth++
+				for _, b := range callee.Blocks {
+					for _, i2 := range b.Instrs {
+						fv.summarizeInstr(i2, cells, prefixes, havocAll, allocs)
+					}
+				}
+				fv.sumDepth--
 				return
 			}
 			*havocAll = true
